@@ -133,9 +133,9 @@ def scopes_along(fam: dict) -> list:
 
 def run(tier: str, seed: int, rep: Report, model: Model) -> dict:
     rnd = rng_for("C09", seed)
-    n_seq = depth(tier, 150, 1500)
-    n_thr = depth(tier, 15, 120)
-    n_nest = depth(tier, 80, 600)
+    n_seq = depth(tier, 150, 5000)
+    n_thr = depth(tier, 15, 300)
+    n_nest = depth(tier, 80, 2000)
     rep.rule = ("families of 3 functions sharing 1-4 annotation aliases (optional and not) and a provider (fresh or long-lived dict), random "
                 "decoration order, 4-8 steps (calls conforming / resized / None, provider updates in place or by rebinding); thread runs "
                 "with 8 threads; nested checked calls; distinct = distinct family; non-trivial = an alias is used both with and without | None")
